@@ -1,14 +1,17 @@
 (* C15 -- receive-side bandwidth estimation never fails and stays within its
    safety bounds.  Property theorems only; proofs live in Proof/RateCounterP.v,
-   Proof/AimdP.v, Proof/RbeP.v and Proof/RbeRembP.v.
+   Proof/AimdP.v, Proof/RbeP.v, Proof/RbeRembP.v, Proof/RbeEncP.v,
+   Proof/RbeMeasP.v and Proof/RbeAnyClockP.v.
 
    PARTIAL with respect to the property text: the floating-point delay filter
    (InterArrival burst test, OveruseEstimator, OveruseDetector) is not
    modelled.  Its verdict is an input of every call (a_verdict) and all
    theorems hold for EVERY verdict sequence; that the filter itself never
    raises is not proved (exercised by the oracle only).  The float-rounded
-   quantities of AimdRateControl are inputs (a_fl) constrained by fl_admissible,
-   whose ranges every check run records from the implementation. *)
+   quantities of AimdRateControl are inputs (a_fl) constrained by fl_admissible
+   (|2 c15 - 3 T| <= 2, |100 d85 - 85 T| <= 51, increments >= 0); every check run
+   records the actual values from the implementation and asserts these ranges.
+   C15_never_raises therefore covers the integer skeleton only. *)
 From Coq Require Import ZArith List Bool Lia.
 From AV Require Import Lib.Bytes Model.RateCounter Model.Aimd Model.Rbe
   Proof.RateCounterP Proof.AimdP Proof.RbeP Proof.RbeRembP Proof.RbeEncP Proof.RbeMeasP Proof.RbeAnyClockP.
@@ -34,14 +37,17 @@ Print Assumptions C15_window_exact.
 (* AimdRateControl.update never raises: for ALL call histories -- any verdicts,
    any throughputs (also None, negative), any clock, any float-rounded inputs.
    (On the unrepaired tree packets_per_frame is 0 at current_bitrate = 0 and
-   the model would return Crash; see C15_zero_bitrate_additive_reachable.) *)
+   the model would return Crash; see C15_example_zero_bitrate_additive.) *)
 Theorem C15_aimd_never_raises : forall cs, exists s outs, Aimd.run aimd_init cs = (s, outs, 0).
 Proof. exact aimd_never_raises. Qed.
 Print Assumptions C15_aimd_never_raises.
 
-(* RemoteBitrateEstimator.add (integer skeleton) never raises: for ALL arrival
+(* RemoteBitrateEstimator.add (integer skeleton: SSRC dictionary, RateCounter,
+   update cadence, AimdRateControl.update) never raises: for ALL arrival
    histories with non-decreasing arrival times -- any send-time stamps, any
-   payload sizes, any SSRCs, any detector verdicts, any float-rounded inputs. *)
+   payload sizes, any SSRCs, any detector verdicts, any float-rounded inputs.
+   NOT covered: exceptions inside the float code of InterArrival /
+   OveruseEstimator / OveruseDetector (the property is partial there). *)
 Theorem C15_never_raises : forall l,
   nondecreasing (map a_time l) -> exists s outs, Rbe.run rbe_init l = (s, outs, 0).
 Proof. exact rbe_never_raises. Qed.
